@@ -236,3 +236,27 @@ def graph_inputs(g: bytes) -> list:
                     info["dims"] = dims
         out.append(info)
     return out
+
+
+MODEL_FUNCTIONS = 25
+FUNC = dict(name=1, input=4, output=5, attribute=6, node=7, domain=10, attribute_proto=11)
+
+
+def functions_of_model(b: bytes) -> list:
+    """ModelProto.functions as [{name, domain, attribute (declared names), nodes: [{op_type, attrs}]}]."""
+    out = []
+    for f, _, v in fields(b):
+        if f != MODEL_FUNCTIONS:
+            continue
+        ff = fields(v)
+        nodes = []
+        for k, _, x in ff:
+            if k == FUNC["node"]:
+                nf = fields(x)
+                nodes.append({"op_type": next((y.decode() for kk, _, y in nf if kk == NODE_OPTYPE), ""),
+                              "attrs": [attribute(y) for kk, _, y in nf if kk == NODE_ATTRIBUTE]})
+        out.append({"name": next((x.decode() for k, _, x in ff if k == FUNC["name"]), ""),
+                    "domain": next((x.decode() for k, _, x in ff if k == FUNC["domain"]), ""),
+                    "attribute": [x.decode() for k, _, x in ff if k == FUNC["attribute"]],
+                    "nodes": nodes})
+    return out
